@@ -121,7 +121,10 @@ def content_for(rng):
     if c < 0.1:
         return b""
     if c < 0.2:
-        return b"#!/bin/sh\necho hi\n"
+        # the two marker bytes decide, whatever follows them: text, bytes that are no text (a loader stub, an interpreter path
+        # in another encoding), nothing, no line end within the first 4 KiB
+        return b"#!" + rng.choice([b"/bin/sh\necho hi\n", b"/bin/sh\necho hi\n", b"/opt/caf\xe9/bin/run\nx\n", b"\xff\xfe\x00binary\x00",
+                                   b"", b"\n", b" " * 5000 + b"/bin/sh\n", b"\r\n", bytes(range(128, 256)) * 40])
     if c < 0.3:
         return b"no trailing newline"
     if c < 0.4:
